@@ -141,20 +141,19 @@ theorem sndInv_send (c : Cipher) (hc : CipherOk c) (size : Nat) (hs : 1 ≤ size
 
 theorem sndInv_ping (c : Cipher) (start : Nat) (s : Sender) (h : SndInv c start s) : SndInv c start s.ping := by
   unfold Sender.ping
-  by_cases hcl : s.closing = true
-  · simpa [hcl] using h
-  · have hcl' : s.closing = false := by cases hh : s.closing <;> simp_all
-    simp only [hcl, Bool.false_eq_true, if_false]
-    refine ⟨?_, ?_, ?_⟩
-    · apply ids_append h.ids
-      intro k hk
-      simp at hk; subst hk
-      simp [h.next]
-    · simp only [List.length_append, List.length_cons, List.length_nil]
-      rw [h.next]; unfold seqNext idOf; omega
-    · show Core.consume c core0 (s.log ++ _) = _
-      rw [consume_append, h.cons, hcl']
-      simp [Core.consume]
+  refine ⟨?_, ?_, ?_⟩
+  · apply ids_append h.ids
+    intro k hk
+    simp at hk; subst hk
+    simp [h.next]
+  · simp only [List.length_append, List.length_cons, List.length_nil]
+    rw [h.next]; unfold seqNext idOf; omega
+  · show Core.consume c core0 (s.log ++ _) = _
+    rw [consume_append, h.cons]
+    by_cases hcl : s.closing = true
+    · rw [consume_closed c _ _ (by simpa using hcl)]
+    · have hcl' : s.closing = false := by cases hh : s.closing <;> simp_all
+      simp [Core.consume, hcl']
 
 theorem sndInv_disconnect (c : Cipher) (start : Nat) (s : Sender) (h : SndInv c start s) :
     SndInv c start s.disconnect := by
@@ -280,10 +279,7 @@ theorem inv_run (c : Cipher) (hc : CipherOk c) (size : Nat) (hsz : 1 ≤ size) (
         · exact rcvInv_grow c start ch _ (wiresOf c ch.s.nextId ch.s.encPos (split size m)) (by simp [Sender.send, hcl]) hr
       | ping =>
         simp only [step]
-        by_cases hcl : ch.s.closing = true
-        · have : ch.s.ping = ch.s := by simp [Sender.ping, hcl]
-          rw [this]; exact hr
-        · exact rcvInv_grow c start ch _ [⟨ch.s.nextId, .ping, []⟩] (by simp [Sender.ping, hcl]) hr
+        exact rcvInv_grow c start ch _ [⟨ch.s.nextId, .ping, []⟩] (by simp [Sender.ping]) hr
       | disconnect =>
         simp only [step]
         by_cases hcl : ch.s.closing = true
